@@ -133,6 +133,15 @@ def generate(tier):
                     cases.append(build_default(nf, p, expr, nodefault=True))
     for p in range(5):
         cases.append(build_default(5, p, None, nodefault=True))
+    # the designated field's type has an inherent `default()` that answers differently from its Default impl
+    for nf, p in ((1, 0), (2, 0), (2, 1), (3, 1)):
+        tys = ['u8', 'u16', 'u32'][:nf]
+        tys[p] = 'Inh'
+        fields = ''.join('%s    pub f%d: %s,\n' % ('    #[educe(Default)]\n' if (i == p and nf > 1) else '', i, t) for i, t in enumerate(tys))
+        src = '#[derive(Educe)]\n#[educe(Default(new))]\npub union Ty {\n%s}\n' % fields
+        src += ('pub fn check(r: &mut Rep) {\n    let x = Ty::default();\n    let got = unsafe { x.f%d };\n    r.ck(got == inh(0), 0, &|| format!("default().f%d = {:?}, the Default impl of the field type gives Inh(0)", got));\n'
+                '    let y = Ty::new();\n    let got = unsafe { y.f%d };\n    r.ck(got == inh(0), 1, &|| format!("new().f%d = {:?}", got));\n}\n') % (p, p, p, p)
+        cases.append(Case('C20|default|inherent|%d|%d' % (nf, p), src, {'fields': nf, 'designated': p, 'field_type': 'Inh'}, expect='accept', run=True, depth=1))
     return cases
 
 
